@@ -1,0 +1,78 @@
+//! Verification hooks - DO NOT USE!
+//!
+//! This module requires the internal `__verif` feature to be enabled. It exposes
+//! probes (read-only observation points), taps (fault-injection points that are
+//! the identity unless a handler is installed) and thin wrappers around otherwise
+//! private functions, so that an external monitoring harness can observe the
+//! engine. Nothing in here has behaviour of its own: without an installed
+//! handler every hook is a no-op.
+//!
+//! All state is thread-local; a harness that runs several simulations in
+//! parallel threads gets independent hook state per thread.
+#![allow(missing_docs)]
+#![allow(clippy::unwrap_used)]
+
+use std::cell::{Cell, RefCell};
+
+/// Handler receiving `(site, party, index, value)` for every probe.
+pub type ProbeSink = Box<dyn FnMut(&'static str, Option<usize>, usize, &[u8])>;
+/// Handler receiving `(site, party, index, value)` for every tap; may change `value` in place.
+pub type TapFn = Box<dyn FnMut(&'static str, Option<usize>, usize, &mut [u8])>;
+
+thread_local! {
+    static PARTY: Cell<Option<usize>> = const { Cell::new(None) };
+    static PROBE: RefCell<Option<ProbeSink>> = const { RefCell::new(None) };
+    static TAP: RefCell<Option<TapFn>> = const { RefCell::new(None) };
+}
+
+/// Tell the hooks which party's code is being polled on this thread.
+pub fn set_current_party(p: Option<usize>) {
+    PARTY.with(|c| c.set(p));
+}
+
+/// The party set by [`set_current_party`].
+pub fn current_party() -> Option<usize> {
+    PARTY.with(|c| c.get())
+}
+
+/// Install (or remove) the probe sink of this thread.
+pub fn install_probe_sink(sink: Option<ProbeSink>) {
+    PROBE.with(|p| *p.borrow_mut() = sink);
+}
+
+/// Install (or remove) the tap handler of this thread.
+pub fn install_tap(tap: Option<TapFn>) {
+    TAP.with(|t| *t.borrow_mut() = tap);
+}
+
+pub(crate) fn probe(site: &'static str, index: usize, value: &[u8]) {
+    PROBE.with(|p| {
+        if let Ok(mut p) = p.try_borrow_mut()
+            && let Some(sink) = p.as_mut()
+        {
+            sink(site, current_party(), index, value);
+        }
+    });
+}
+
+pub(crate) fn tap_bytes(site: &'static str, index: usize, value: &mut [u8]) {
+    TAP.with(|t| {
+        if let Ok(mut t) = t.try_borrow_mut()
+            && let Some(tap) = t.as_mut()
+        {
+            tap(site, current_party(), index, value);
+        }
+    });
+}
+
+pub(crate) fn tap_u128(site: &'static str, index: usize, value: &mut u128) {
+    let mut b = value.to_le_bytes();
+    tap_bytes(site, index, &mut b);
+    *value = u128::from_le_bytes(b);
+}
+
+pub(crate) fn tap_bool(site: &'static str, index: usize, value: &mut bool) {
+    let mut b = [*value as u8];
+    tap_bytes(site, index, &mut b);
+    *value = b[0] & 1 != 0;
+}
